@@ -3,21 +3,22 @@
 From Coq Require Import ZArith List Bool Lia.
 From KV Require Import Base.Outcome Base.Num C19.Model C06.Model.
 From KV Require Import C04.Transport C04.StaticData C04.StaticSound C04.ProofsTransport.
-From KV Require Import C09.Model C09.ProofsTape.
+From KV Require Import C09.Model C09.ProofsDecoder C09.ProofsTape.
 Import ListNotations.
 Local Open Scope Z_scope.
 
 (** the property's guard on the data: the slice lies inside the audio; [B] is any bound on the (sliced) length, the
     start position and the loop ends, and the iteration bound [fuel] of the model's loops exceeds it (and the length
-    of the audio, for the decoder's "decode until the frame shows up" loop).  Start positions beyond the end, empty
+    of the audio times [EP], the bound on consecutive empty packets, for the decoder's "decode until the frame shows
+    up" loop).  Start positions beyond the end, empty
     and inverted loop regions (ignored by both transports), loop regions reaching beyond the end are all inside. *)
 Definition wf_config {T : Type} {NT : Num T} (A : Type) (azero : A) (V P : Type) (fuel : nat) (audio : list A)
-    (sr : Z) (slice : option (Z * Z)) (g : settings T V P) (B : Z) : Prop :=
+    (sr : Z) (slice : option (Z * Z)) (g : settings T V P) (B : Z) (EP : nat) : Prop :=
   let n := num_frames (audio_source A azero audio) slice in
   let start := into_samples (g_start_pos g) sr in
   let lr := option_map (fun r => region_samples r sr n) (g_loop g) in
   slice_wf A audio slice /\ Z.of_nat (length audio) < u64_max /\ 0 <= start /\ start < B /\ n <= B /\
-  B < u64_max /\ B < Z.of_nat fuel /\ req_loop B lr /\ (length audio <= fuel)%nat.
+  B < u64_max /\ B < Z.of_nat fuel /\ req_loop B lr /\ (need_fuel (length audio) EP <= fuel)%nat.
 
 (** the property's "non-negative playback rate": the initial rate and every value the rate parameter takes along
     the history (at the end of each chunk and interpolated at each frame) is not NaN, not below zero and has a clear
@@ -50,44 +51,72 @@ Section Main.
   Variable slice : option (Z * Z).
   Variable g : settings T V P.
   Variable B : Z.
-  Hypothesis WF : wf_config A azero V P fuel audio sr slice g B.
+  Variable EP : nat.
+  Hypothesis WF : wf_config A azero V P fuel audio sr slice g B EP.
 
   Notation s_new := (static_new A azero V silence identity P pcenter fuel sr (audio_source A azero audio) slice g).
-  Notation y_new land := (stream_new A azero V silence identity P pcenter audio land sr slice g).
   Notation s_run := (run_static powf A azero F interp cast ascale V vinterp silence identity amp P pinterp panned fuel).
-  Notation y_run psize land := (run_stream powf A azero F interp cast ascale V vinterp silence identity amp P pinterp panned fuel
-                                           audio psize land cap).
 
-  Lemma simulation : forall (psize land : nat -> nat) (evs : list (event T V P)),
-    rates_nonneg powf V P g evs ->
-    exists x0 w0,
-      s_new = Ok x0 /\ y_new land = Ok w0 /\
-      sh_pos (x_core x0) = y_pos (z_core (w_sound w0)) /\ h_mirror (x_shell x0) = h_mirror (z_shell (w_sound w0)) /\
-      forall ys, y_run psize land w0 evs = Ok (ys, false) ->
-        exists xs, s_run x0 evs = Ok xs /\ Forall2 (obs_rel A sr) xs ys.
-  Proof.
-    intros psize land evs [Hr0 Hrates].
-    destruct WF as (H1 & H2 & H3 & H4 & H5 & H6 & H7 & H8 & H9).
-    destruct (init_inv A azero fuel audio sr slice _ _ B H1 H2 H3 H4 H5 H6 H7 H8 H9 land V silence identity P pcenter g
-                       eq_refl eq_refl Hr0) as (x0 & w0 & Hx & Hw & HInv & Hrate & Hpos0 & Hst0).
-    exists x0, w0. split; [exact Hx|]. split; [exact Hw|]. split; [exact Hpos0|]. split; [exact Hst0|]. intros ys Hrun.
-    rewrite <- Hrate in Hrates.
-    exact (run_sim A azero fuel audio sr slice _ _ B H1 H2 H3 H4 H5 H6 H7 H8 H9 psize land F interp cast powf ascale
-                   V vinterp silence identity amp P pinterp panned cap evs x0 w0 HInv Hrates ys Hrun).
-  Qed.
+  Section OneDecoder.
+    Variable D : Type.
+    Variable dpos : D -> nat.
+    Variable dsize : D -> nat.
+    Variable dnext : D -> D.
+    Variable dseek : D -> nat -> D.
+    Variable derr : D -> bool.
+    Variable d0 : D.
+    Hypothesis Hconf : conforming A audio D dpos dsize dnext dseek derr EP.
 
-  Lemma packet_independence : forall (psize land psize' land' : nat -> nat) (evs : list (event T V P)),
-    exists w0 w0',
-      y_new land = Ok w0 /\ y_new land' = Ok w0' /\ y_run psize land w0 evs = y_run psize' land' w0' evs.
-  Proof.
-    intros psize land psize' land' evs.
-    destruct WF as (H1 & H2 & H3 & H4 & H5 & H6 & H7 & H8 & H9).
-    destruct (init_indep A azero fuel audio sr slice _ _ H1 H9 land V silence identity P pcenter g eq_refl eq_refl land')
-      as (w0 & w0' & Hw & Hw' & HP).
-    exists w0, w0'. split; [exact Hw|]. split; [exact Hw'|].
-    exact (run_indep A azero fuel audio slice _ _ B H1 H2 H3 H4 H5 H6 H7 H8 H9 psize land F interp cast powf ascale
-                     V vinterp silence identity amp P pinterp panned cap psize' land' evs w0 w0' HP).
-  Qed.
+    Lemma simulation : forall (evs : list (event T V P)),
+      rates_nonneg powf V P g evs ->
+      exists x0 w0,
+        s_new = Ok x0 /\ stream_new A azero V silence identity P pcenter audio D dpos dseek d0 sr slice g = Ok w0 /\
+        sh_pos (x_core x0) = y_pos (z_core (w_sound w0)) /\ h_mirror (x_shell x0) = h_mirror (z_shell (w_sound w0)) /\
+        forall ys,
+          run_stream powf A azero F interp cast ascale V vinterp silence identity amp P pinterp panned fuel
+                     audio D dpos dsize dnext dseek derr cap w0 evs = Ok (ys, false) ->
+          exists xs, s_run x0 evs = Ok xs /\ Forall2 (obs_rel A sr) xs ys.
+    Proof.
+      intros evs [Hr0 Hrates].
+      destruct WF as (H1 & H2 & H3 & H4 & H5 & H6 & H7 & H8 & H9).
+      destruct (init_inv A azero fuel audio sr slice _ _ B H1 H2 H3 H4 H5 H6 H7 H8 EP H9 D dpos dseek d0
+                         V silence identity P pcenter g eq_refl eq_refl Hr0)
+        as (x0 & w0 & Hx & Hw & HInv & Hrate & Hpos0 & Hst0).
+      exists x0, w0. split; [exact Hx|]. split; [exact Hw|]. split; [exact Hpos0|]. split; [exact Hst0|]. intros ys Hrun.
+      rewrite <- Hrate in Hrates.
+      exact (run_sim A azero fuel audio sr slice _ _ B H1 H2 H3 H4 H5 H6 H7 H8 EP H9 D dpos dsize dnext dseek derr Hconf
+                     F interp cast powf ascale V vinterp silence identity amp P pinterp panned cap evs x0 w0 HInv Hrates ys Hrun).
+    Qed.
+
+    Variable D' : Type.
+    Variable dpos' : D' -> nat.
+    Variable dsize' : D' -> nat.
+    Variable dnext' : D' -> D'.
+    Variable dseek' : D' -> nat -> D'.
+    Variable derr' : D' -> bool.
+    Variable d0' : D'.
+    Hypothesis Hconf' : conforming A audio D' dpos' dsize' dnext' dseek' derr' EP.
+
+    Lemma packet_independence : forall (evs : list (event T V P)),
+      exists w0 w0',
+        stream_new A azero V silence identity P pcenter audio D dpos dseek d0 sr slice g = Ok w0 /\
+        stream_new A azero V silence identity P pcenter audio D' dpos' dseek' d0' sr slice g = Ok w0' /\
+        run_stream powf A azero F interp cast ascale V vinterp silence identity amp P pinterp panned fuel
+                   audio D dpos dsize dnext dseek derr cap w0 evs =
+        run_stream powf A azero F interp cast ascale V vinterp silence identity amp P pinterp panned fuel
+                   audio D' dpos' dsize' dnext' dseek' derr' cap w0' evs.
+    Proof.
+      intros evs.
+      destruct WF as (H1 & H2 & H3 & H4 & H5 & H6 & H7 & H8 & H9).
+      destruct (init_indep A azero fuel audio sr slice _ _ H1 EP H9 D dpos dseek d0 V silence identity P pcenter g
+                           eq_refl eq_refl D' dpos' dseek' d0')
+        as (w0 & w0' & Hw & Hw' & HP).
+      exists w0, w0'. split; [exact Hw|]. split; [exact Hw'|].
+      exact (run_indep A azero fuel audio slice _ _ B H1 H2 H3 H4 H5 H6 H7 H8 EP H9 D dpos dsize dnext dseek derr Hconf
+                       F interp cast powf ascale V vinterp silence identity amp P pinterp panned cap
+                       D' dpos' dsize' dnext' dseek' derr' Hconf' evs w0 w0' HP).
+    Qed.
+  End OneDecoder.
 End Main.
 
 (** ** a decision procedure for the rate hypothesis (used by the examples, and usable on any concrete history) *)
